@@ -309,6 +309,6 @@ func C16(r *core.Run) {
 	r.Cov["exit_statuses"] = exits
 	r.Cov["exhaustive"] = len(deaths) == 0
 	r.Cov["bound"] = map[string]any{"line_faults": len(c16LineFaults), "positions": "top level / in a block / in an include / first, middle, last file of --all", "deviations": 1}
-	r.Cov["rule"] = "one fault per case (1-deviation exploration of an otherwise valid tree): every listed fault class at every position it can occur x every command for which it is a fault, executed with the real CLI; oracle: exit != 0, no regex on stdout, whole tree byte-identical; plus the converse check on the fault-free tree; non-trivial = cases that failed loudly"
+	r.Cov["rule"] = "one fault per case (1-deviation exploration of an otherwise valid tree): every listed fault class at every position it can occur x every command for which it is a fault, executed with the real CLI; oracle: exit != 0, no regex on stdout, whole tree byte-identical; plus the converse check on the fault-free tree; non-trivial = cases that failed loudly; every --all case is repeated with hidden files and directories, links and other names beside the assembly files"
 	r.Cov["samples"] = []any{cs[0], cs[len(cs)/2], cs[len(cs)-1]}
 }
